@@ -92,6 +92,68 @@ func c19(c *Ctx) {
 			ec.Check = boolCheck(p.f(k.null, k.empty))
 		}
 	}
+	// the null tests as FILTER predicates over lists that hold null elements beside others: an element is
+	// kept exactly when the test is true of it — a null element is kept by IsNull / IsNullOrEmpty /
+	// `@.k?.IsNull()` and dropped by their negations
+	{
+		type el struct {
+			d           *D
+			null, empty bool
+			isObj       bool
+		}
+		pool := []el{{h.Nil(), true, true, false}, {h.FloatD(1), false, false, false}, {h.Str(""), false, true, false}, {h.Str("x"), false, false, false}, {h.FloatD(0), false, true, false},
+			{h.Obj("k", h.FloatD(1)), false, false, true}, {h.Obj("k", h.Nil()), false, false, true}, {h.Bool(false), false, true, false}}
+		for it, nIt := 0, c.N(600, 6000); it < nIt; it++ {
+			var xs []*D
+			var els []el
+			for i, m := 0, 1+c.Rng.Intn(4); i < m; i++ {
+				e := pool[c.Rng.Intn(len(pool))]
+				if c.Rng.Intn(3) == 0 {
+					e = pool[0]
+				}
+				xs, els = append(xs, e.d), append(els, e)
+			}
+			doc := h.Obj("xs", h.SliceAny(xs...))
+			for _, p := range preds {
+				if p.usesEmpty {
+					continue
+				}
+				want := 0
+				for _, e := range els {
+					if p.f(e.null, e.empty) {
+						want++
+					}
+				}
+				ec := c.AddEval("$.xs[@."+p.name+"()].Count()", doc, "null-elements-in-filter", true, true)
+				sure := true // the emptiness of zero values is the model's to say; the harness oracle speaks where it is plain
+				for _, e := range els {
+					if e.empty && !e.null {
+						sure = false
+					}
+				}
+				if sure || p.name == "IsNull" || p.name == "IsNotNull" {
+					ec.Check = exactly(big.NewRat(int64(want), 1))
+				}
+			}
+			// `@.k?.IsNull()`: true of a null element, of an object whose k is null; objects only besides nulls
+			allObj := true
+			wantK := 0
+			for _, e := range els {
+				if !e.null && !e.isObj {
+					allObj = false
+				}
+				if e.null || (e.isObj && e.d.Vs[0].Tag == "nil") {
+					wantK++
+				}
+			}
+			if allObj {
+				ec := c.AddEval("$.xs[@.k?.IsNull()].Count()", doc, "null-elements-in-filter", true, true)
+				ec.Check = exactly(big.NewRat(int64(wantK), 1))
+				ec = c.AddEval("$.xs[@.k?.IsNotNull()].Count()", doc, "null-elements-in-filter", true, true)
+				ec.Check = exactly(big.NewRat(int64(len(els)-wantK), 1))
+			}
+		}
+	}
 	c.RunEvalCases()
 
 	// paths x marks x key states
